@@ -1240,7 +1240,7 @@ def p12b_read_error_ends_handler(ctx):
             continue
         labs_all = set(sum(info["arms"].values(), []))
         on = info["on"]
-        from_read = bool(origin_mentions(on, lambda y: y[0] == "variant" and str(y[2]).startswith("_"))) or bool(origin_mentions(on, lambda y: y[0] == "call" and y[3] == (b.path, rbb)))
+        from_read = bool(phi_mentions(b, on, lambda y: y[0] == "variant" and str(y[2]).startswith("_"))) or bool(phi_mentions(b, on, lambda y: y[0] == "call" and y[3] == (b.path, rbb)))
         if labs_all & {"Break", "Err"} and from_read and not err_dsts:
             for e in b.succ[sb]:
                 if set(info["arms"].get(e.dst, [])) & {"Break", "Err"}:
